@@ -189,11 +189,28 @@ func init() {
 								continue
 							}
 							// the cap is computed by a helper of the package from the ceiling
-							if ce, ok := ast.Unparen(rs.Results[0]).(*ast.CallExpr); ok && depth < 2 && ceilObj != nil {
-								if h := originOf(Callee(cinfo, ce)); h != nil && h.Pkg() == cfn.Pkg() && h.Type().(*types.Signature).Results().Len() == 1 {
+							if ce, ok := ast.Unparen(rs.Results[0]).(*ast.CallExpr); ok && depth < 2 {
+								if h := originOf(Callee(cinfo, ce)); h != nil && h != ceilM && h.Type().(*types.Signature).Results().Len() == 1 {
 									if hd := c.declOf[h]; hd != nil && hd.Body != nil {
-										if po := boundParam(cinfo, ce, h, ceilObj); po != nil {
-											capReturns(FuncUnit{h, hd, c.pkgOf[hd]}, po, 1, depth+1)
+										if ceilObj != nil {
+											if po := boundParam(cinfo, ce, h, ceilObj); po != nil {
+												capReturns(FuncUnit{h, hd, c.pkgOf[hd]}, po, 1, depth+1)
+												continue
+											}
+										}
+										// … or reads the ceiling itself (Runtime.DefaultSleepCap)
+										var hceil types.Object
+										hinfo := c.pkgOf[hd].TypesInfo
+										ast.Inspect(hd.Body, func(n ast.Node) bool {
+											if as, ok := n.(*ast.AssignStmt); ok && len(as.Lhs) == 1 && len(as.Rhs) == 1 {
+												if hc, ok := ast.Unparen(as.Rhs[0]).(*ast.CallExpr); ok && originOf(Callee(hinfo, hc)) == ceilM {
+													hceil = identObj(hinfo, as.Lhs[0])
+												}
+											}
+											return true
+										})
+										if hceil != nil {
+											capReturns(FuncUnit{h, hd, c.pkgOf[hd]}, hceil, 1, depth+1)
 											continue
 										}
 									}
